@@ -27,7 +27,7 @@ def arc_points(rng):
 class C17(Property):
     id = "C17"
     lean_module = "RosuModel.Props.C17Full"   # imports Props/C17ArcEnd.lean (→ Props/C17Arc.lean, Props/C17Ends.lean, Props/C17.lean) and Props/C17ArcTol.lean; all in namespace Rosu.C17
-    theorem_modules = ['RosuModel.Props.C17ArcEnd', 'RosuModel.Props.C17ArcTol', 'RosuModel.Props.C17Bezier', 'RosuModel.Props.C17CatmullChord', 'RosuModel.Props.C17Catmull', 'RosuModel.Props.C17BezierCubic']   # files whose top-level theorems are all audited
+    theorem_modules = ['RosuModel.Props.C17ArcEnd', 'RosuModel.Props.C17ArcTol', 'RosuModel.Props.C17Bezier', 'RosuModel.Props.C17CatmullChord', 'RosuModel.Props.C17Catmull', 'RosuModel.Props.C17BezierCubic', 'RosuModel.Props.C17BezierQuartic', 'RosuModel.Props.C17BezierQuintic']   # files whose top-level theorems are all audited
     namespace = "Rosu.C17"
     design_ref = "5.17"
     level_text = (
@@ -70,7 +70,9 @@ class C17(Property):
         "compared with independently evaluated exact curves (De Casteljau, circle through three points, Catmull-Rom polynomial, polyline) "
         "in both directions with bounds derived from the constants 0.25 / 0.1 (arc: 0.4 for curve → path, the proved bound) / 50 steps, and the model is tied to the code bit-for-bit.")
     technique = "Lean 4 proof of the structural part and, over the reals, of the end-point and arc-tolerance clauses + bit-exact differential correspondence + independent exact-curve oracle (test)"
-    required_theorems = ["flatPiece_cubic", "cubicW1_sub_curve", "cubicW2_sub_curve", "comb_sq_le", "flat_cubic_second_differences", "flat_piece_cubic_within",
+    required_theorems = ["flatPiece_quartic", "flatPiece_quintic", "quarticW2_sub_curve", "comb3_sq_le", "comb4_sq_le", "flat_piece_quartic_within", "flat_piece_quintic_within",
+                         "bezier_quartic_within", "bezier_quintic_within", "bezier_within_tolerance_quarter_quartic", "bezier_within_tolerance_quarter_quintic",
+                         "flatPiece_cubic", "cubicW1_sub_curve", "cubicW2_sub_curve", "comb_sq_le", "flat_cubic_second_differences", "flat_piece_cubic_within",
                          "flat_piece_within_tolerance_cubic", "quarter_admissible", "bezier_cubic_within", "bezier_within_tolerance_cubic", "bezier_within_tolerance_quarter",
                          "flat_piece_statement_iff_upto", "bezier_statement_iff_upto",
                          "catmull_within_bound_real", "catmull_points_on_spline_real", "approximate_catmull_spans", "cubic_chord_error", "catmull_chord_within", "catmull_chord_error_sharp",
@@ -95,6 +97,11 @@ class C17(Property):
                          "arc_eps_branch_violates", "arcProps_real_range", "arc_piece_within", "arc_within_tolerance_real",
                          "halfCircle_accepted", "halfCircle_exceeds_tolerance"]
     partial_theorems = {
+        "bezier_within_tolerance_quarter_quintic / bezier_within_tolerance_quarter_quartic": "Props/C17BezierQuartic.lean, Props/C17BezierQuintic.lean (sixth session, wave 9): the same method carried to five and six control "
+            "points — bezier_within_tolerance_upto P 5 0.25 and … P 6 0.25: every vertex approximate_bezier pushes for a segment of at most SIX control points is within BEZIER_TOLERANCE of the exact curve "
+            "(exact arithmetic). The curve parameter that eliminates first differences is i/n throughout; quartic: w2 lies ON the curve (quarticW2_sub_curve), squared bound 1/1024 = (tol/8)²; quintic: "
+            "squared bound 49/25600 = (7·tol/40)²; both attained (extremalQuartic / extremalQuintic, kernel-evaluated on ℚ). The sum of |α| for the first pushed vertex goes 1/48, 1/16, 7/80 for 4, 5, 6 points — "
+            "growing about linearly, as the classical bound predicts; seven or more control points stay open",
         "bezier_within_tolerance_quarter / bezier_within_tolerance_cubic": "Props/C17BezierCubic.lean (sixth session, wave 8): the Bezier clause for control-point lists of AT MOST FOUR points (linear, quadratic, "
             "cubic segments), exact arithmetic, any fuel on which the flattening succeeds, any scratch contents: every vertex approximate_bezier pushes is within BEZIER_TOLERANCE = 0.25 of a point of the "
             "exact curve — in fact within 1/96 px (squared distance ≤ 1/9216). A flat cubic piece [a,b,c,d] pushes a, w1 = (9a+15b+7c+d)/32, w2 = (a+7b+15c+9d)/32 (flatPiece_cubic, by rfl); "
